@@ -576,3 +576,41 @@ func VerifC03ParallelFailures() {
 
 // thorough tier: three parallel nodes in all-predecessor mode
 func VerifC03ParDAG3() { c03Par(1, 3) }
+
+// Eager (Workflow) run: a join node is triggered by node fast and also takes a field from node slow through a data-only
+// input; slow is not an ancestor of fast and runs next to it. Whichever finishes first, the join runs once, after both,
+// and receives both fields.
+func VerifC03DataOnlyJoin() {
+	ctx := context.Background()
+	vcfg("preempt", 2)
+	counts := map[string]int{}
+	body := func(key string) *Lambda {
+		return InvokableLambda(func(ctx context.Context, in map[string]any) (map[string]any, error) {
+			vyield()
+			vMu.Lock()
+			counts[key]++
+			vMu.Unlock()
+			return map[string]any{key: vsymUF("f_"+key, vFold(in))}, nil
+		})
+	}
+	wf := NewWorkflow[map[string]any, map[string]any]()
+	wf.AddLambdaNode("fast", body("fast")).AddInput(START)
+	wf.AddLambdaNode("slow", body("slow")).AddInput(START)
+	var got map[string]any
+	wf.AddLambdaNode("join", InvokableLambda(func(ctx context.Context, in map[string]any) (map[string]any, error) {
+		vMu.Lock()
+		counts["join"]++
+		got = in
+		vMu.Unlock()
+		return map[string]any{"n": len(in)}, nil
+	})).AddInput("fast", ToField("fast")).AddInputWithOptions("slow", []*FieldMapping{ToField("slow")}, WithNoDirectDependency())
+	wf.End().AddInput("join")
+	r, err := wf.Compile(ctx)
+	vassert(err == nil, "workflow compiles")
+	x := vsymInt("x")
+	out, rerr := r.Invoke(ctx, map[string]any{"in": x})
+	vquiesce()
+	vassert(rerr == nil, "run succeeds under every schedule")
+	vassert(counts["join"] == 1 && counts["fast"] == 1 && counts["slow"] == 1, "every node executed exactly once")
+	vassert(out["n"] == 2 && got["fast"] != nil && got["slow"] != nil, "the join receives the field of its trigger and the field of its data-only predecessor, whichever finished first")
+}
